@@ -386,6 +386,10 @@ func stdlibAndBuiltinFuncs(c *Ctx) []*ssa.Function {
 func propC19(c *Ctx) {
 	l := c.L
 	fns := stdlibAndBuiltinFuncs(c)
+	defer func() {
+		rcv := c.Rule("call-vm", "every Call value built by a method of VM or Invoker carries the VM (builtins and stdlib functions run script callbacks on it and poll it for Abort)", 3)
+		ruleCallVM(c, rcv)
+	}()
 	rg := c.Rule("get-bound", "every (*Call).Get(k) is reached only in states where k < c.Len() follows from CheckLen, comparisons / switch on c.Len(), shift() and loop conditions (interval analysis per Call value, constant-parameter summaries for helpers)", 100)
 	ruleGetBound(c, rg, fns)
 
